@@ -493,3 +493,49 @@ Section Scan.
     end.
   Definition collect (s : S) : list kv := let s0 := i_first I s in collect_loop (i_fuel I s0) s0.
 End Scan.
+
+(* ------------------------------------------------------------------------------------ *)
+(* 8. A scan that runs while other clients write                                           *)
+(* ------------------------------------------------------------------------------------ *)
+
+(* A writer's insert into the skip list a memtable source iterates, as this iterator sees it
+   (entries hidden by the snapshot filter are no step at all): the entry joins the list at
+   index i (the theorems demand that the list stays key-sorted); it lies ahead of the iterator
+   iff it is linked in behind the node the iterator stands on. An exhausted or not yet
+   positioned iterator (current == nil / head) has nothing ahead either way. *)
+Fixpoint ins_at (i : nat) (e : kv) (l : list kv) : list kv :=
+  match i, l with
+  | O, _ => e :: l
+  | Datatypes.S n, x :: r => x :: ins_at n e r
+  | Datatypes.S _, [] => [e]
+  end.
+
+Definition src_write (i : nat) (e : kv) (s : src) : src :=
+  let before := (length (s_all s) - length (s_cur s))%nat in
+  mkSrc (s_kind s) (ins_at i e (s_all s))
+        (match s_cur s with
+         | [] => []
+         | _ => if Nat.leb i before then s_cur s else ins_at (i - before)%nat e (s_cur s)
+         end).
+
+(* the steps of an interleaving: the scan calls Next, or a writer changes the sources *)
+Inductive cstep (S : Type) := CNext | CWrite (key : bytes) (srcs' : list S).
+Arguments CNext {S}. Arguments CWrite {S}.
+
+Section Conc.
+  Context {S : Type} (I : Iter S).
+  Definition set_srcs (h : hier S) (srcs : list S) : hier S := mkH srcs (h_valid h) (h_key h) (h_val h).
+  Definition hpos (h : hier S) : list kv := if h_valid h then [(h_key h, h_val h)] else [].
+
+  (* the entries the scan has surfaced, in order *)
+  Fixpoint crun (h : hier S) (steps : list (cstep S)) (out : list kv) : hier S * list kv :=
+    match steps with
+    | [] => (h, out)
+    | CNext :: r => let h' := fst (hier_next I h) in
+                    crun h' r (if h_valid h then out ++ hpos h' else out)
+    | CWrite _ srcs' :: r => crun (set_srcs h srcs') r out
+    end.
+
+  Definition cscan (srcs : list S) (steps : list (cstep S)) : hier S * list kv :=
+    let h0 := hier_first I (hier_new srcs) in crun h0 steps (hpos h0).
+End Conc.
